@@ -26,7 +26,7 @@ def pname(kind: str, *parts) -> str:
 
 
 class SymL2:
-    def __init__(self, g: GSpec, card: dict | None = None, lat_card: int = 2, differs: dict | None = None):
+    def __init__(self, g: GSpec, card: dict | None = None, lat_card: int = 2, differs: dict | None = None, policy: dict | None = None):
         self.g = g
         self.card = {n: 2 for n in g.nodes}
         if card:
@@ -36,6 +36,9 @@ class SymL2:
         self.inc = {n: [i for i, e in enumerate(self.latents) if n in e] for n in g.nodes}
         self.pa = {n: g.parents(n) for n in g.nodes}
         self.differs = {k: set(v) for k, v in (differs or {}).items()}
+        # policy[pop]: variables that domain `pop` sets by a stochastic policy sigma (a fresh marginal distribution,
+        # independent of the variable's parents and latents)
+        self.policy = {k: set(v) for k, v in (policy or {}).items()}
         self.params: dict[str, z3.ExprRef] = {}
         self.constraints: list = []
         self._row_cache: dict = {}
@@ -67,6 +70,8 @@ class SymL2:
         return self._row(pname("lam", i), self.lat_card)[val]
 
     def theta(self, pop: str, v: str, val: int, pa_vals: tuple, u_vals: tuple):
+        if v in self.policy.get(pop, ()):
+            return self._row(pname("sig", pop, v), self.card[v])[val]
         owner = pop if (pop != TARGET and v in self.differs.get(pop, ())) else TARGET
         key = pname("th", owner, v, "".join(map(str, pa_vals)), "".join(map(str, u_vals)))
         return self._row(key, self.card[v])[val]
@@ -74,7 +79,7 @@ class SymL2:
     # -- probabilities ----------------------------------------------------------------
     def _q(self, pop, comp: tuple, lats: tuple, vals: dict):
         """Sum over the latents *lats* of prod(lam) * prod_{V in comp} theta(V | pa, u)."""
-        key = (pop if any(v in self.differs.get(pop, ()) for v in comp) else TARGET, comp, lats,
+        key = (pop if any(v in self.differs.get(pop, ()) or v in self.policy.get(pop, ()) for v in comp) else TARGET, comp, lats,
                tuple(sorted((k, vals[k]) for k in set(comp) | {p for v in comp for p in self.pa[v]})))
         hit = self._q_cache.get(key)
         if hit is not None:
